@@ -530,6 +530,10 @@ func (r *RowCache) uuidsByConditionsAsIndexes(conditions []ovsdb.Condition, nati
 		if condition.Function == ovsdb.ConditionIncludes && isSet {
 			return nil
 		}
+		if condition.Function == ovsdb.ConditionIncludes && v.Kind() == reflect.Ptr && v.IsNil() {
+			// every optional value includes the empty set
+			return nil
+		}
 		keys := []interface{}{}
 		if v.Kind() == reflect.Map && condition.Function == ovsdb.ConditionIncludes {
 			for _, key := range v.MapKeys() {
